@@ -581,10 +581,27 @@ def discharge_call(prog, ctx, fk, b, i, t, n, R, roles, reph_fns, sub13, sub15, 
             # no function reachable from the trait object's methods mentions RitiContext
             inner = prog.reach(prog.trait_impl_methods("context::Method"), foreign_trait_impls=False)
             mentions = [k for k in inner if any("context::RitiContext" in l["ty"] for l in prog.fns[k]["mir"]["locals"])]
-            exclusive = len(refcell_ops) == 1 or all(_refcell_exclusive(b, x, y) for x in refcell_ops for y in refcell_ops if x != y)
-            if not mentions and exclusive:
-                return True, "D-refcell-leaf: one borrow per path in a RitiContext method; the borrowed method object cannot reach a RitiContext (no re-entrancy)"
-            return False, "re-entrancy not excluded (%s)" % (mentions[:1] or "two borrows on one path")
+            # a call of another function that itself borrows the cell counts as a borrow at the call site
+            cell_fns = {k for k in prog.fns if any("RefCell::<T>::" in callee_name(t2) and "try_borrow" not in callee_name(t2) for (_, t2) in prog.raw_body(k).calls())}
+            indirect = [x for (x, t2) in b.calls() if callee_name(t2) in prog.fns and "RefCell::<T>::" not in callee_name(t2)
+                        and (set(prog.reach([callee_name(t2)], foreign_trait_impls=False)) & cell_fns)]
+            clash = None
+            for x in refcell_ops:
+                tx = b.blocks[x]["term"]
+                if not (callee_name(tx).endswith("::borrow") or callee_name(tx).endswith("::borrow_mut")):
+                    continue                      # replace / swap hold no guard
+                region = _guard_region(b, x)
+                hit = [y for y in refcell_ops + indirect if y != x and y in region]
+                if hit:
+                    clash = (x, hit[0])
+                    break
+            if not mentions and clash is None:
+                return True, "D-refcell-leaf: no second borrow of the cell (direct or through a called method) while a borrow guard is alive; the borrowed method object cannot reach a RitiContext (no re-entrancy)"
+            if clash is not None:
+                ct = b.blocks[clash[1]]["term"]
+                return False, "the cell is borrowed again (%s, line %s) while the guard taken here is still alive — RefCell panics with 'already borrowed'" % (
+                    callee_name(ct).split("::")[-1], (ct.get("loc") or {}).get("line"))
+            return False, "re-entrancy not excluded (%s)" % (mentions[:1],)
         return False, "RefCell operation outside RitiContext"
     # sorting needs a total order
     if "]>::sort" in n or "::sort_" in n:
@@ -678,6 +695,34 @@ def discharge_call(prog, ctx, fk, b, i, t, n, R, roles, reph_fns, sub13, sub15, 
     if any(n.startswith(p) for p in PANIC_FNS):
         return False, "explicit panic reachable from an event"
     return False, "no discharge rule for %s" % n
+
+
+def _guard_region(b, x):
+    """Blocks executed while the Ref/RefMut returned by the borrow at block x is alive: from the call's return to the drop of the guard
+    (followed through whole-local moves); a guard that is handed to a callee or never dropped lives to the end of the function."""
+    t = b.blocks[x]["term"]
+    guards = {t["dest"]["l"]}
+    changed = True
+    while changed:
+        changed = False
+        for (i, j, st) in b.stmts():
+            if st["k"] == "assign" and not st["place"]["p"] and st["rv"]["k"] == "use" and st["rv"]["op"].get("k") == "move" \
+                    and not st["rv"]["op"]["place"]["p"] and st["rv"]["op"]["place"]["l"] in guards and st["place"]["l"] not in guards:
+                guards.add(st["place"]["l"])
+                changed = True
+    region = set()
+    work = [t["target"]] if t.get("target") is not None else []
+    while work:
+        n = work.pop()
+        if n in region:
+            continue
+        region.add(n)
+        tt = b.blocks[n]["term"]
+        if tt["k"] == "drop" and not tt["place"]["p"] and tt["place"]["l"] in guards:
+            continue
+        for s_ in b.bsucc[n]:
+            work.append(s_)
+    return region
 
 
 def _refcell_exclusive(b, x, y):
